@@ -117,6 +117,8 @@ def stress_case(item):
             _, spell, j, cmd = item
             files = {'a.do': scen.leaf_do(), 'sub/b.do': scen.leaf_do(), 'sub/keep': 'x\n'}
             pj = scen.Project(files, 'c09alias')
+            os.symlink('sub', os.path.join(pj.top, 'lnk'))       # the same directory under a second name
+            spell = [x.replace('$TOP', pj.top) for x in spell]
             argv = ([cmd] + (['-j%d' % j] if cmd == 'redo' and j > 1 else [])) + list(spell)
             r, _ = pj.run(argv, slots=(j if cmd != 'redo' and j > 1 else None))
             rs = [r]
@@ -313,7 +315,8 @@ def stress_items(tier, rnd):
                 for own in (True, False):
                     for rep in range(1 if quick else 4):
                         items.append(('fan', n, j, depth2, jitter, own, rep))
-    spells = [('a', './a'), ('a', 'a'), ('./a', 'sub/../a'), ('a', './a', 'sub/../a'), ('sub/b', 'sub/./b'), ('a', 'sub/b', './a')]
+    spells = [('a', './a'), ('a', 'a'), ('./a', 'sub/../a'), ('a', './a', 'sub/../a'), ('sub/b', 'sub/./b'), ('a', 'sub/b', './a'),
+              ('sub/b', 'lnk/b'), ('lnk/b', 'sub/b', './lnk/b'), ('$TOP/lnk/b', 'sub/b'), ('a', 'lnk/../a')]
     for sp in spells:
         for j in (1, 2):
             for cmd in ('redo', 'redo-ifchange'):
